@@ -76,6 +76,10 @@ def run(ctx):
     rep.check(r2, bool(gc) and bool(sp) and not st.must_pass(gc, sp), 'stun:class==0', 'reply only behind class == STUN_CLASS_REQUEST: %s' % bool(gc), st.loc(sp[0]) if sp else '')
     rep.check(r2, bool(gm) and bool(sp) and not st.must_pass(gm, sp), 'stun:method==1', 'reply only behind method == STUN_METHOD_BINDING: %s' % bool(gm), st.loc(sp[0]) if sp else '')
     cw = [v for _, _, v in field_writes(st, 'class')]
+    # the class that is tested is the protocol's class: indications (class 1) and responses (2, 3) decode as such
+    from rules import c15 as _c15
+    cc_ = _c15.class_codec(F)
+    rep.check(r2, cc_['class_ok'], 'stun:class-decoder', 'the parsed class is (byte0 bit0, byte1 bit4) for all 65536 leading byte pairs, so indications / success / error responses never decode as requests: %s' % cc_['class_ok'])
     rep.check(r2, [const_val(v) for v in cw] == [2], 'stun:response-class', 'class written into the response: %s' % [short(v) for v in cw])
     mw = [v for _, _, v in field_writes(st, 'method')]
     rep.check(r2, [const_val(v) for v in mw] == [1], 'stun:response-method', 'method written into the response: %s' % [short(v) for v in mw])
